@@ -164,8 +164,7 @@ func checkRestart(dir, path string, key tink.AEAD, tr *dbx.Tracker, step int, op
 	}
 	if (step+len(before.data))%3 == 0 {
 		// Before the restart that works, two that do not: the key service is down when the server
-		// starts, and somebody starts it with the wrong key. Each must fail and leave the file - and
-		// the directory it lives in - exactly as they were ("opening never modifies the file").
+		// starts, and somebody starts it with the wrong key. Each must fail and leave the file exactly as it was ("opening never modifies the file").
 		ls0 := lsState(dir)
 		for _, attempt := range []string{"server start while the key service is down", "open with another key"} {
 			var ferr error
@@ -179,8 +178,10 @@ func checkRestart(dir, path string, key tink.AEAD, tr *dbx.Tracker, step int, op
 				return h.V("harness", "after step %d %s: %s succeeded (C05 decides that)", step, op, attempt)
 			}
 			mid, err := statFile(path)
-			if err != nil || !before.same(mid) || lsState(dir) != ls0 {
-				return h.V("open-never-modifies", "after step %d %s: a failed start (%s: %v) changed the state directory: file same=%v err=%v; directory was [%s], is [%s]", step, op, attempt, ferr, err == nil && before.same(mid), err, ls0, lsState(dir))
+			// (the FILE is what the property speaks of; what else an implementation keeps in the directory -
+			// a lock file, a log - is its own business and only shown in the message)
+			if err != nil || !before.same(mid) {
+				return h.V("open-never-modifies", "after step %d %s: a failed start (%s: %v) changed the database file: err=%v; the directory was [%s] and is [%s]", step, op, attempt, ferr, err, ls0, lsState(dir))
 			}
 		}
 	}
